@@ -74,17 +74,32 @@ func c10Run(c *work.Ctx, pathOnly bool) {
 			names = append(names, calls[i].name)
 		}
 		sname := strings.Join(names, " || ")
-		for _, poolFresh := range []bool{false, true} {
+		for _, variant := range []struct {
+			poolFresh bool
+			prologue  bool
+		}{{false, false}, {true, false}, {false, true}} {
+			poolFresh := variant.poolFresh
 			ex := &explore.Explorer{Bound: bound}
+			if variant.prologue {
+				// a history of failed calls first (what they leave in the pools and caches is what the
+				// goroutines start from); one preemption fewer keeps the cost of this variant low
+				ex.Bound = bound - 1
+			}
 			stop := false
 			ex.Stop = func() bool { return stop }
 			ex.Run(func(ch *explore.Chooser) {
 				id := fmt.Sprintf("%s poolFresh=%v", sname, poolFresh)
+				if variant.prologue {
+					id += " after failed calls"
+				}
 				if !c.BeginS(id) {
 					return
 				}
 				defer c.EndCase()
 				c10Reset()
+				if variant.prologue {
+					c10Prologue()
+				}
 				sh := c10Fresh()
 				got := make([]string, len(sc.idx))
 				var bodies []func(s *sched.Sched)
